@@ -148,3 +148,158 @@ Proof. reflexivity. Qed.
 Example ex_missing :
   run_producer fixed PFilterStubs {| idx := [None]; cols := ["x"; "y"; "frame"]%string |} = Missing.
 Proof. reflexivity. Qed.
+
+(* =========================================================================================
+   ROUTE T -- the same statements about the functions GENERATED from the current source.
+   Gen/filtering.v is rewritten by tools/py2coq_filtering.py from trackpy/filtering.py
+   (filter_stubs, filter_clusters, filter, bust_ghosts, bust_clusters) and trackpy/utils.py
+   (pandas_sort, guess_pos_columns) on every run of the check, before this file is built.
+   The generated functions take the pandas interface [P : pandas] (Model/PyFiltering.v: every
+   pandas operation is a named field); SchemaI / RowsI / BodyI give the fields the meaning of
+   Model/TrajLayout.v / TrajFilter.v / TrajData.v.  [res]: ROk v | RRaise exception.
+   ========================================================================================= *)
+From TP Require Import Model.PyFiltering Gen.filtering Proofs.TrajGen.
+Local Open Scope string_scope.
+
+(* ---------- (a) the generated filters ------------------------------------------------------ *)
+
+(* On row tables the generated filter_stubs, filter_clusters (threshold given; threshold=None:
+   the quantile of all sizes; NaN threshold: nothing kept), filter (any condition function) never
+   raise and return what the hand-written model of pandas' groupby-filter returns; the two
+   aliases are the functions they name. *)
+Theorem C20_gen_filters_equal_model :
+  (forall rows thr, py_filter_stubs RowsI rows thr = ROk (TrajFilter.filter_stubs rows thr)) /\
+  (forall rows q cut, py_filter_clusters RowsI rows q (Some (Some cut)) = ROk (TrajFilter.filter_clusters rows cut)) /\
+  (forall rows q, py_filter_clusters RowsI rows q None = ROk (filter_clusters_q rows q)) /\
+  (forall rows q, py_filter_clusters RowsI rows q (Some None) = ROk []) /\
+  (forall rows f, py_filter RowsI rows (fun g => ROk (f g)) = ROk (gb_filter f rows)) /\
+  py_bust_ghosts = py_filter_stubs /\ py_bust_clusters = py_filter_clusters.
+Proof. exact gen_filters_equal_model. Qed.
+Print Assumptions C20_gen_filters_equal_model.
+
+(* C20_stubs_exact for the generated filter_stubs *)
+Theorem C20_gen_stubs_exact : forall (rows : list row) (threshold : Z),
+  py_filter_stubs RowsI rows threshold =
+  ROk (filter (fun r => match pid r with
+                        | Some p => (threshold <=? observations p rows)%Z
+                        | None => false
+                        end) rows).
+Proof. exact gen_stubs_exact. Qed.
+Print Assumptions C20_gen_stubs_exact.
+
+(* C20_clusters_exact for the generated filter_clusters (threshold = cut; the quantile argument
+   is not looked at) *)
+Theorem C20_gen_clusters_exact : forall (rows : list row) (quant cut : Q),
+  py_filter_clusters RowsI rows quant (Some (Some cut)) =
+  ROk (filter (fun r => match pid r with
+                        | Some p => match qmean (traj_sizes p rows) with
+                                    | Some m => Qltb m cut
+                                    | None => false
+                                    end
+                        | None => false
+                        end) rows).
+Proof. exact gen_clusters_exact. Qed.
+Print Assumptions C20_gen_clusters_exact.
+
+(* ---------- (b) the generated layout plumbing ----------------------------------------------- *)
+
+(* On schemas (index-level names + column labels) the generated filters raise / accept / leave
+   the layout exactly as the model's stages do -- for EVERY schema, also column-deficient or
+   oddly indexed ones ([to_outcome]: trackpy's ValueError for an absent column counts as
+   Missing); the generated pandas_sort is the model's pandas_sort of the fixed code, for a
+   str or list `by`, single or multi-level index, and for both values of inplace (result:
+   the caller's object afterwards -- its index renamed either way --, the returned value:
+   None when inplace); guess_pos_columns is ['y','x'] unless there is a column 'z'. *)
+Theorem C20_gen_layout_equal_model :
+  (forall s thr, to_outcome (py_filter_stubs SchemaI s thr) = Some (st_filter_stubs fixed s)) /\
+  (forall s q thr, to_outcome (py_filter_clusters SchemaI s q thr) = Some (st_filter_clusters fixed s)) /\
+  (forall s b inplace,
+     py_pandas_sort SchemaI s b inplace =
+     rbind (of_outcome (pandas_sort fixed b s)) (fun s' => ROk (s', if inplace then None else Some s'))) /\
+  (forall s, py_guess_pos_columns SchemaI s = if has_col "z" s then "z"%string :: pos_columns else pos_columns).
+Proof. exact gen_layout_equal_model. Qed.
+Print Assumptions C20_gen_layout_equal_model.
+
+(* The stages of Model/TrajLayout.v rebuilt on the generated functions (Proofs/TrajGen.v:
+   g_link / g_compute_drift / g_subtract_drift / g_cluster call py_pandas_sort -- link keeps
+   the object it passed with inplace=True, compute_drift keeps the returned table -- and
+   py_guess_pos_columns; the two filters ARE py_filter_stubs / py_filter_clusters with any
+   arguments [a]) give the model's outcome on every 2-D table. *)
+Theorem C20_gen_stages_equal_model : forall (a : filter_args) (s : schema),
+  has_col "z" s = false ->
+  (forall p, to_outcome (g_run_producer a p s) = Some (run_producer fixed p s)) /\
+  (forall c, to_outcome (g_run_consumer a c s) = Some (run_consumer fixed c s)).
+Proof. exact gen_stages_equal_model. Qed.
+Print Assumptions C20_gen_stages_equal_model.
+
+(* C20_compose for pipelines of the generated stages *)
+Theorem C20_gen_compose : forall (a : filter_args) (ps : list producer) (s : schema),
+  traj_cols s -> has_col "z" s = false ->
+  exists s', g_run_pipeline a ps s = ROk s' /\ traj_cols s' /\ cols s' = cols s /\
+             forall c : consumer, exists r, g_run_consumer a c s' = ROk r.
+Proof. exact g_compose. Qed.
+Print Assumptions C20_gen_compose.
+
+(* C20_reachable_layouts for pipelines of the generated stages *)
+Theorem C20_gen_reachable_layouts : forall (a : filter_args) ps s s',
+  traj_cols s -> has_col "z" s = false -> idx s = [None] -> g_run_pipeline a ps s = ROk s' ->
+  In (idx s') [ [None]; [Some "frame"]; [Some "frame"; Some "particle"];
+                [Some "frame_index"]; [Some "frame_index"; Some "particle"] ]%string
+  /\ cols s' = cols s.
+Proof. exact g_reachable_from_default. Qed.
+Print Assumptions C20_gen_reachable_layouts.
+
+(* ---------- (c) the generated functions in the data-flow model -------------------------------- *)
+
+(* On bodies (index values + rows) the generated filters are d_filter (reset the index, keep
+   the rows the kernel keeps, index by the row's own frame); the generated pandas_sort with
+   inplace=True sorts the caller's table (stable) and returns nothing, without inplace it
+   leaves the table and returns the sorted one. *)
+Theorem C20_gen_data_equal_model :
+  forall (R : Type) (fr part : R -> Z) (keep : list R -> R -> bool) (b : body R),
+  (forall thr, py_filter_stubs (BodyI R fr part keep) b thr = ROk (d_filter R fr keep b)) /\
+  (forall q thr, py_filter_clusters (BodyI R fr part keep) b q thr = ROk (d_filter R fr keep b)) /\
+  py_pandas_sort (BodyI R fr part keep) b (ByStr "frame") true = ROk (sort_values R (by_frame R fr) b, None) /\
+  py_pandas_sort (BodyI R fr part keep) b (ByList ["particle"; "frame"]%string) false
+    = ROk (b, Some (sort_values R (by_particle_frame R fr part) b)).
+Proof. exact gen_data_equal_model. Qed.
+Print Assumptions C20_gen_data_equal_model.
+
+(* C20_same_numbers for pipelines whose filter stages and sorts are the generated functions *)
+Theorem C20_gen_same_numbers :
+  forall (R : Type) (fr part : R -> Z) (k_link k_link_partial : list R -> list R)
+         (k_keep_stubs k_keep_clusters : list R -> R -> bool)
+         (drift_t : Type) (k_drift : list R -> drift_t) (k_sub : drift_t -> Z -> R -> R)
+         (a : filter_args) (ps : list dstage) (b : body R),
+  let run := g_d_run R fr part k_link k_link_partial k_keep_stubs k_keep_clusters drift_t k_drift k_sub a ps in
+  map snd (run b) = map snd (run (default_indexed R b)) /\
+  g_d_compute_drift R fr part k_keep_stubs drift_t k_drift (run b) =
+  g_d_compute_drift R fr part k_keep_stubs drift_t k_drift (run (default_indexed R b)).
+Proof. exact g_same_numbers. Qed.
+Print Assumptions C20_gen_same_numbers.
+
+(* ---------- non-vacuity: the generated functions run ---------------------------------------- *)
+Example ex_gen_stubs :
+  match py_filter_stubs RowsI ex_rows 2 with ROk o => Some (map rid o) | RRaise _ => None end
+  = Some [0; 1; 2; 4; 5]%nat.
+Proof. reflexivity. Qed.
+Example ex_gen_clusters_quantile :
+  match py_filter_clusters RowsI ex_rows (1#2) None with ROk o => Some (map rid o) | RRaise _ => None end
+  = Some [1; 5]%nat.
+Proof. reflexivity. Qed.
+Definition ex_args := {| a_stub_threshold := 3; a_quantile := 8#10; a_cluster_threshold := Some (Some (4#1)) |}.
+Example ex_gen_pipeline :
+  has_col "z" default_table = false /\
+  g_run_pipeline ex_args [PSubtractDrift; PLink; PFilterStubs; PSubtractDrift; PLinkPartial] default_table
+  = ROk {| idx := [Some "frame_index"; Some "particle"]%string; cols := cols default_table |}.
+Proof. split; reflexivity. Qed.
+(* rejection is not built in: trackpy's own ValueError for a table without 'particle' *)
+Example ex_gen_missing :
+  py_filter_stubs SchemaI {| idx := [None]; cols := ["x"; "y"; "frame"]%string |} 5
+  = RRaise (EValueError "Tracks must contain columns 'frame' and 'particle'.").
+Proof. reflexivity. Qed.
+(* pandas_sort on a table indexed by 'frame': the caller's index is renamed, also without inplace *)
+Example ex_gen_sort :
+  py_pandas_sort SchemaI {| idx := [Some "frame"]%string; cols := cols default_table |} (ByStr "frame") false
+  = let t := {| idx := [Some "frame_index"]%string; cols := cols default_table |} in ROk (t, Some t).
+Proof. reflexivity. Qed.
